@@ -69,6 +69,47 @@ CHECKS = {
              "ratio <= r for every piece (cross-multiplied), blockages untouched.",
         note="r from {1.42,1.5,1.9,2,3}, n<=4 (6 thorough), input ratios <= 8, one or two starting rectangles, die with one blockage.",
         design="5/C11"),
+    'C13': dict(
+        text="The real fruchterman_reingold_layout is executed symbolically for max_iter 0 and 1 from an arbitrary start (inside or "
+             "outside the die) with every nonlinear operation an uninterpreted function carrying sign axioms: on every path z3 proves "
+             "fixed modules unmoved, every movable centre inside the die after an iteration (the inductive step for any iteration "
+             "count), nothing but centres changed, and equal results for two runs on equal designs. force_algorithm is executed with "
+             "arbitrary cost values for the 12 spring constants (2048 paths): the final layout uses the first spring constant "
+             "attaining the smallest cost, on the original die. A binary64 kernel (QF_FP) proves the centre of a fixed module is "
+             "bit-for-bit unchanged.",
+        note="2 modules (3 in the thorough tier), one axis of the die symbolic; uninterpreted mul/div/sqrt over-approximate the "
+             "path set; finiteness of the centres and more than one unrolled iteration are not decided.",
+        technique="symbolic execution of the real Python code with uninterpreted nonlinear arithmetic + z3; QF_FP kernel (z3/cvc5)",
+        design="5/C13"),
+    'C14': dict(
+        text="Three layered solver checks on the real spectral code: (N) the real normalize on an arbitrary vector: every eligible "
+             "movable entry ends within its span, fixed entries unchanged, ValueError only when nothing is eligible; (loop) the real "
+             "spectral_layout_die with the numeric kernels replaced by arbitrary-valued stubs and normalize by contract N: final "
+             "coordinates of movable nodes are within size/2 - radius and fixed nodes keep their coordinate, for one more iteration "
+             "from any state; (wrap-up) the real Spectral.spectral_layout for 0..3 trials: disc of every movable module inside the "
+             "die, fixed modules untouched, hard modules translated rigidly, areas and nets unchanged.",
+        note="n<=3 (4) entries, 3 nodes, 5 modules; convergence, the iteration cap, entries below 1e-9 before scaling and RNG "
+             "internals are outside.",
+        design="5/C14"),
+    'C15': dict(
+        text="Every 0/1 grid inside the bound is run through the real Strop constructor with symbolic cells (one path per grid); z3 "
+             "decides the existential specification 'some rectangle is a valid trunk' against the code's answer and the validity of "
+             "every offered decomposition (partition, abutment within extent). Vertex polygons with symbolic ordered coordinates: "
+             "area preserved (shoelace), pieces disjoint, result recognised by the real create_stog with the trunk first; "
+             "non-orthogons rejected.",
+        note="grids up to 3x3 and 2x4 (4x4, 3x5 thorough): inside the bound this coincides with exhaustive enumeration, the solver "
+             "being the oracle; 11 polygon shapes x orientation x axis.",
+        design="5/C15"),
+    'C17': dict(
+        text="Totality in binary64: the real circle_circle_intersection_area is executed on z3 FloatingPoint proxies (QF_FP, z3 + "
+             "cvc5 portfolio): every exception site (arccosine domain, zero divisor, overflow of **) is proved unreachable and the "
+             "result finite, for all radii in [1e-6,1e6] and every centre distance satisfying the contract of Point.norm, which is "
+             "proved on the real Point.__sub__/norm for coordinates in [-1e6,1e6]. Symmetry and the case structure (0 iff far "
+             "apart, disc area iff nested) are proved over the reals with uninterpreted acos and sin(acos t)=sqrt(1-t^2).",
+        note="Bounded/accurate clauses are NOT decided (transcendental reasoning). x**2 modelled as fl(x*x), **0.5 as correctly "
+             "rounded sqrt; acos/sin results arbitrary in their ranges; assume-guarantee cut at Point.norm.",
+        technique="symbolic execution of the real Python code on binary64 proxies + QF_FP solving (z3, cvc5), and on real proxies + z3 NRA",
+        design="5/C17"),
 }
 
 PENDING_REASON = "check not built yet in this round (planned in DESIGN.md section 5); nothing is claimed"
